@@ -94,14 +94,16 @@ class _randobj:
         
         if not hasattr(T, "_ro_init"):
             def __getattribute__(self, a):
+                if a == "rand_mode":
+                    # The rand_mode of an object lives on its model
+                    return object.__getattribute__(self, "get_model")().rand_mode
+                
                 ret = object.__getattribute__(self, a)
             
                 if isinstance(ret, type_base) and not is_raw_mode():
                     # We're not in an expression, so the user
                     # wants the value of this field
                     ret = ret.get_val()
-                elif a == "rand_mode":
-                    ret = self._int_rand_info.rand_mode
                 elif isinstance(ret, (constraint_t,dynamic_constraint_t)):
                     if isinstance(ret, constraint_t) or not is_expr_mode():
                         # The constraint_t wrapper is per-type. In regular
@@ -123,6 +125,11 @@ class _randobj:
                 return ret
         
             def __setattr__(self, field, val):
+                if field == "rand_mode":
+                    # The rand_mode of an object lives on its model
+                    self.get_model().rand_mode = bool(val)
+                    return
+                
                 try:
                     # Retrieve the field object so we can check if it's 
                     # a type_base object. This will throw an exception
@@ -150,8 +157,6 @@ class _randobj:
                         fo.clear()
                         for i in val:
                             fo.append(i)
-                    elif field == "rand_mode":
-                        self._int_rand_info.rand_mode = bool(val)
                     else:
                         object.__setattr__(self, field, val)
 
